@@ -5,6 +5,7 @@ from __future__ import annotations
 import copy
 import gc
 import json
+import time
 
 import common
 import edits as E
@@ -486,6 +487,43 @@ def run_history(run: Run, stream, case, rows):
     return problem
 
 
+def suspended_iterators(run: Run, stream):
+    """a partially consumed iterator that the program still holds must not keep collections from evicting what the
+    program has released elsewhere (seeded C04-8: the cache lock held across a `yield`)"""
+    from delb import Document, altered_default_filters
+
+    kinds = {
+        "iterate_descendants": lambda r: r.iterate_descendants(),
+        "iterate_children": lambda r: r.iterate_children(),
+        "iterate_following": lambda r: r[0].iterate_following() if len(r) else iter(()),
+        "iterate_preceding": lambda r: r.last_descendant.iterate_preceding() if r.last_descendant is not None else iter(()),
+        "iterate_following_siblings": lambda r: r[0].iterate_following_siblings() if len(r) else iter(()),
+        "iterate_ancestors": lambda r: r.last_descendant.iterate_ancestors() if r.last_descendant is not None else iter(()),
+        "xpath": lambda r: iter(r.xpath("//*")),
+    }
+    gc.collect()
+    for name, make in kinds.items():
+        case = {"suspended": name}
+        run.case(stream, case, True)
+        held_doc = Document("<r><a>t<b/>u</a><c/><!--x--><d><e/></d></r>")
+        with altered_default_filters():
+            it = make(held_doc.root)
+            first = next(it, None)  # noqa: F841  the iterator is suspended now
+        base = cache_len()
+        other = Document("<o><p>q</p><p/><p><s/></p></o>")
+        with altered_default_filters():
+            nodes = list(other.root.iterate_descendants())
+        grown = cache_len() - base
+        del nodes, other
+        gc.collect()
+        left = cache_len() - base
+        if grown > 0 and left > 0:
+            run.violation(stream, case, {"why": f"{left} cached node objects of a released document left while a partially "
+                                                f"consumed {name} iterator of another document is held"})
+        del it, first, held_doc
+        gc.collect()
+
+
 def attr_scope_cases(run: Run, stream):
     """attributes given to an element before it is attached below a default namespace: what the attribute objects and
     the serialization report afterwards must not depend on whether the element's wrapper (and the attribute objects it
@@ -800,11 +838,17 @@ def check(run: Run, lean: dict) -> int:
     for c in corpus():
         run_history(run, "corpus", c, rows)
     for _ in range(n):
+        if run.enough():
+            break
         run_history(run, "generated", gen_case(run.rng), rows)
     for c in micro_cases(run.rng, n // 3, MICRO_DOCS if run.tier == "quick" else MICRO_DOCS + E.DOCS):
+        if run.enough():
+            break
         run_history(run, "single call, collections inside", c, rows)
-    empty_in_chain(run, "empty text in a chain")
-    attr_scope_cases(run, "attributes given before attaching")
+    suspended_iterators(run, "suspended iterators")
+    if not run.enough():
+        empty_in_chain(run, "empty text in a chain")
+        attr_scope_cases(run, "attributes given before attaching")
     if UNRAISABLE:
         run.count("unraisable exceptions in callbacks", len(UNRAISABLE))
         if not any("callback" in str(v.get("detail", "")) for v in run.violations):
@@ -817,10 +861,17 @@ def check(run: Run, lean: dict) -> int:
 def search(run: Run):
     probe = Run(run.prop, run.tier, run.seed)
     cands = [m["case"] for m in run.mismatches] + corpus() + micro_cases(run.rng, 3000) + [gen_case(run.rng) for _ in range(4000)]
+    suspended_iterators(probe, "search")
+    if probe.violations:
+        return [probe.violations[0]]
+    t0 = time.time()
     for c in cands:
         p = run_history(probe, "search", c, [])
         if p:
             return [{"case": c, "detail": p}]
+        if time.time() - t0 > (600 if run.tier == "quick" else 7200):
+            run.notes.append("failing-input search stopped after its time budget")
+            break
     return None
 
 
